@@ -33,6 +33,7 @@ type LoopSpec struct {
 type GhostDecl struct {
 	Name   string
 	Params []string
+	In     bool // supplied by the caller (bound to the caller's ghost function of the same name)
 }
 
 type FuncSpec struct {
@@ -56,6 +57,7 @@ type FuncSpec struct {
 	GhostFinal []*Clause
 	Uses      []*Clause
 	Reveal    []string
+	Defines   []*Clause // definitional axioms of ghost functions (assumed on both sides)
 	Iface     string // for interface method contracts: interface name
 	File      string
 	Line      int
@@ -94,7 +96,7 @@ type Contracts struct {
 }
 
 var clauseKW = map[string]bool{"prop": true, "requires": true, "ensures": true, "assigns": true, "loop": true,
-	"decreases": true, "ghost": true, "ghost_final": true, "use": true, "reveal": true, "guarantee": true, "panics_if": true, "trusted": true, "noinline": true, "pure": true, "allocates": true}
+	"decreases": true, "ghost": true, "ghost_final": true, "use": true, "reveal": true, "guarantee": true, "define": true, "panics_if": true, "trusted": true, "noinline": true, "pure": true, "allocates": true}
 
 var headRe = regexp.MustCompile(`^func\s*(\(\s*(\w+)\s+(\*?\w+)\s*\))?\s*([\w$.]+)\s*\((.*?)\)\s*(\(.*\)|[\w.*\[\]]+)?\s*$`)
 
@@ -254,6 +256,10 @@ func loadContracts(files []string, pkgNames []string) (*Contracts, error) {
 					}
 					cur.GhostFinal = append(cur.GhostFinal, cl)
 					lastClause = cl
+				case "define":
+					cl := &Clause{Src: rest, Line: ln + 1, File: file}
+					cur.Defines = append(cur.Defines, cl)
+					lastClause = cl
 				case "reveal":
 					cur.Reveal = append(cur.Reveal, strings.Fields(rest)...)
 				case "use":
@@ -273,8 +279,13 @@ func loadContracts(files []string, pkgNames []string) (*Contracts, error) {
 					cur.Allocates = true
 				case "ghost":
 					cur.Ghosts = append(cur.Ghosts, rest)
+					in := false
+					if strings.HasPrefix(rest, "in ") {
+						in = true
+						rest = strings.TrimSpace(rest[3:])
+					}
 					if m := regexp.MustCompile(`^(\w+)\s*\((.*?)\)`).FindStringSubmatch(rest); m != nil {
-						cur.GhostFns = append(cur.GhostFns, &GhostDecl{Name: m[1], Params: parseNames(m[2])})
+						cur.GhostFns = append(cur.GhostFns, &GhostDecl{Name: m[1], Params: parseNames(m[2]), In: in})
 					}
 				case "loop":
 					// loop N: invariant e | decreases e | ghost_update ...
@@ -339,6 +350,7 @@ func loadContracts(files []string, pkgNames []string) (*Contracts, error) {
 		all = append(all, fs.PanicsIf...)
 		all = append(all, fs.GhostFinal...)
 		all = append(all, fs.Uses...)
+		all = append(all, fs.Defines...)
 		if fs.Decreases != nil {
 			all = append(all, fs.Decreases)
 		}
